@@ -251,3 +251,32 @@ PROPS["C09"] = dict(_ROT_COMMON,
     level_text="Generated histories: with daily rotation every file holds one day and rotated names carry it; no rotated name is ever seen with two contents; indices per date only increase. Not a proof.",
     level_note="Trusted: as C05; the virtual clock shim and mtime stamping stand in for the kernel.",
 )
+
+PROPS["C10"] = dict(
+    harness="rc_crash",
+    extra_sources=("common/shim.cpp",),
+    builds=[dict(harness="rc_crash", extra_sources=("common/shim.cpp",))],
+    engine="rc",
+    level="fault_enumeration",
+    quick=dict(cases=12, shards=8, max_size=100, timeout=1500),
+    thorough=dict(cases=100, shards=16, max_size=100, timeout=3400),
+    rule="scenario = configuration (L in {0,8,12,20,40}, N in {-1,0,2,3,4}, options, file name) + prefix history (writes, day changes, restarts) "
+    "leaving a non-empty active file and 0..n rotated files + a triggering write on a fresh sink that rotates (size, day change or startup) + "
+    "a tail of 1..6 records after a restart. For EVERY intercepted mutating call k=1..K of the triggering write (open for writing/creating, write, "
+    "close, rename, renameat2, link, linkat, unlink, ftruncate, sendfile; K is learnt per scenario from a traced run) one child process crashes "
+    "right before call k, and for every rename*/link*/unlink/creating-open call one child per errno in {EACCES, ENOSPC, EIO} (+EINVAL, ENOSYS for "
+    "renameat2) sees that call fail; 'deep' scenarios also combine each failing renameat2 with every later crash point (a double fault, beyond the property: counted in double_fault_losses_informational, never a violation). evaluations = child "
+    "process runs; distinct_nontrivial = distinct (scenario, call index, crash|errno) triples whose call lies inside the rotation (from the "
+    "first rename to the reopen of the active file). exhaustive per scenario: all k of every generated scenario are executed.",
+    exhaustive_note="exhaustive over the crash points and single failures of each generated scenario (not over scenarios)",
+    assumptions=[
+        "a crash is modelled as _exit() of the process right before a system call (kernel state = calls completed so far); no torn writes, no power loss / fsync semantics",
+        "write() failures are not injected (the property lists rename/link/unlink/create)",
+        "retention is a file-count policy: a record may be missing only when N>=2 and at least N-1 rotated files newer than it (or unreadable) exist",
+        "records are unique lines 'r<index>....' so recoverability is decidable line by line",
+    ],
+    floors={"trigger_rotates": 0.7},
+    technique="fault injection by enumeration under rapidcheck-generated scenarios: every intercepted system call of a rotating write is a crash point and (for rename/link/unlink/create) a failure point; recoverability oracle on the directory",
+    level_text="For each generated scenario the crash points and single call failures of the rotating write are enumerated exhaustively (libc interposition, forked children); the directory must keep every previously flushed record in an intact file, also after a restart that writes more. Scenarios themselves are sampled, not enumerated.",
+    level_note="Trusted: harness/common/shim.cpp (interposition of the calls libQt5Core imports), rotmodel.h (gzip check), the retention-conformity reading stated in the assumptions.",
+)
